@@ -88,9 +88,9 @@ def _has(method, name):
 def configs(tier):
     out = []
 
-    def add(mol, method, mode, exc=None, active=0, uhf=False):
+    def add(mol, method, mode, exc=None, active=0, uhf=False, cutoff=None):
         if _has(method, mol):
-            out.append(dict(mol=mol, method=method, mode=mode, exc=exc, active=active, uhf=uhf))
+            out.append(dict(mol=mol, method=method, mode=mode, exc=exc, active=active, uhf=uhf, cutoff=cutoff))
 
     sp_methods = ["MNDO", "AM1", "PM3", "PM6_SP"]
     modes = ["autodiff", "analytical", "semi_numerical"]
@@ -109,6 +109,8 @@ def configs(tier):
         add("H2CO", "AM1", "analytical", exc="cis", active=1)
         add("H2CO", "PM3", "autodiff", exc="cis", active=0)
         add("H2CO", "AM1", "analytical", exc="rpa", active=1)
+        # a finite pair cutoff smaller than the molecule: which pairs interact must not depend on the orientation
+        add("CH3OH", "AM1", "autodiff", cutoff=2.0)
     else:
         core = ["H2O", "NH3", "H2CO", "HCN", "SO2", "CH3Cl"]
         for mol in core:
@@ -132,6 +134,9 @@ def configs(tier):
             add("H2CO", me, "autodiff", exc="cis", active=0)
             add("H2CO", me, "analytical", exc="rpa", active=1)
         add("H2CO", "AM1", "autodiff", exc="cis", active=1)
+        for me in ("AM1", "PM3"):
+            add("CH3OH", me, "autodiff", cutoff=2.0)
+            add("CH3Cl", me, "autodiff", cutoff=2.2)
         # open-shell (UHF) doublets
         for mol in ("CH3", "NH2"):
             for me in ("AM1", "PM3"):
@@ -141,7 +146,7 @@ def configs(tier):
 
 def ckey(c):
     e = f"{c['exc']}{c['active']}" if c["exc"] else ("UHF" if c.get("uhf") else "S0")
-    return f"{c['mol']}|{c['method']}|{c['mode']}|{e}"
+    return f"{c['mol']}|{c['method']}|{c['mode']}|{e}" + (f"|cutoff={c['cutoff']:g}" if c.get("cutoff") else "")
 
 
 def make_params(c):
@@ -152,6 +157,8 @@ def make_params(c):
             extra["nonadiabatic"] = {"compute_nac": True}
         if c["mode"] == "autodiff" and c["active"] > 0:
             extra["scf_backward"] = 1
+    if c.get("cutoff"):
+        extra["pair_outer_cutoff"] = float(c["cutoff"])
     return sp.make_params(c["method"], eps=EPS, force_mode=c["mode"], uhf=bool(c.get("uhf")), **extra)
 
 
